@@ -378,3 +378,15 @@ def gen_cases(tier, rng, info):
         cls = ('dict', 'odict', 'ddict', 'set')[i % 4]
         cases.append(_random_case(rng, cls, rng.randint(5, 50)))
     return cases
+
+LEVEL_TEXT = ('Machine-checked refinement proof (Lean 4): the two-table implementation model of CaseInsensitiveDict / '
+              'OrderedCaseInsensitiveDict / CaseInsensitiveDefaultDict / CaseInsensitiveSet keeps its lock-step invariant and '
+              'behaves like the reference ordered map / set under EVERY finite history of operations (induction over the history), '
+              'with the stated corollaries (case-blind lookup, position kept on overwrite, first-insertion order, exact deletion, '
+              'agreement of len/in/iter/items, lower(), default without insertion, frame). The model is tied to the code by a '
+              'correspondence check that is exhaustive over all reachable states x all operations for a 5-key alphabet and sampled beyond.')
+LEVEL_NOTE = ('Trusted: Lean kernel; axioms propext/Classical.choice/Quot.sound only; the hand-written model (Model/CIMap.lean) '
+              'corresponds to pybtex/utils.py only as far as the differential check explores (52k cases quick); Python dict insertion '
+              'order and the collections.abc mix-in methods are modelled, not verified; str.lower is ASCII in the model. '
+              'Constructor pairs are assumed to have pairwise distinct exact keys (as when they come from a dict). '
+              'repr() is checked on the implementation only (harness), not modelled.')
